@@ -154,10 +154,10 @@ def base_grammars():
     gs.append(g)
 
     # more than 127 states: the tables switch to i16 entries
-    kws = ["k%d" % i for i in range(12)]
+    kws = ["k%d" % i for i in range(20)]
     g = Grammar("wide_i16", terms(" ".join(kws) + " a b c"), [
         NT("S", [A(k, "X%d" % i) for i, k in enumerate(kws)], pub=True),
-    ] + [NT("X%d" % i, [A("a", "b", "c"), A("a", "c", "X%d" % i)] if i % 2 == 0 else [A("a", "X%d" % i, "b"), A("c")]) for i in range(12)],
+    ] + [NT("X%d" % i, [A("a", "b", "c"), A("a", "c", "X%d" % i)] if i % 2 == 0 else [A("a", "X%d" % i, "b"), A("c")]) for i in range(20)],
         tags=["more than 127 states (i16 table entries)", "wide action rows"])
     g.heavy = True
     g.min_n = 4
